@@ -351,6 +351,8 @@ fn main() {
     ev.rule = "distinct (scenario scripts, worker count, quantum, full choice sequence) with at least one message delivered or one await answered".into();
     let model_path = opts.model.clone().expect("--model <qm_c04>");
     let mut model = Model::spawn(&model_path);
+    let variants = configure_model(&mut model);
+    ev.set_extra("runtime_variants", json!(variants));
 
     let mut totals: HashMap<String, u64> = HashMap::new();
     let mut report = |ev: &mut Ev, key: &str, sc: &Scenario, n: usize, q: Option<usize>, rr: &RunResult| {
